@@ -4,8 +4,15 @@
     CheckWithFork, check, GetRealFee, isExpire).  The model follows the code as
     it is.  Every elementary fact about a transaction is an input. *)
 From Coq Require Import List ZArith NArith Bool.
+From C33 Require C31.Model.
 Import ListNotations.
 Open Scope Z_scope.
+
+(** the blacklist positions of types.checkTxBlockedAccountCore, as C31 names them *)
+Notation pos := C31.Model.pos.
+Notation PFrom := C31.Model.PFrom.       Notation PTo := C31.Model.PTo.
+Notation PRealTo := C31.Model.PRealTo.   Notation PEvmAddr := C31.Model.PEvmAddr.
+Notation PEvmPara := C31.Model.PEvmPara.
 
 (** ** Elementary facts about one transaction (a plain transaction, the wrapper
     of a group, or a group member) *)
@@ -15,7 +22,9 @@ Record txf := mkTx {
   t_has_sig : bool;    (* Signature != nil (GetRealFee adds 300 bytes otherwise) *)
   t_sig_ok : bool;     (* checkSign(height+1) succeeds *)
   t_to_valid : bool;   (* address.CheckAddress(To, height) = nil *)
-  t_blocked : bool;    (* CheckTxBlockedAccountImmediate fails: from / to / real to / evm target listed *)
+  t_bl : N;            (* blacklist facts, one bit each: 0 From() listed, 1 To listed, 2 GetRealToAddr() differs
+                          from To, 3 GetRealToAddr() listed, 4 real execer is evm and the payload decodes as an evm
+                          action, 5 its ContractAddr is non-empty and listed, 6 its 20-byte Para is listed *)
   t_on_chain : bool;   (* the blockchain module reports the hash as already packed *)
   t_expire : Z;
   t_hdr_empty : bool;  (* Header decodes as a Transactions message without entries
@@ -26,8 +35,33 @@ Record txf := mkTx {
   t_eth : bool;        (* signature type is an eth sign id *)
   t_nonce : Z;
   t_exec_ok : bool;    (* the executor module's CheckTx accepts *)
-  t_sigid : N          (* identity of the Signature message (sign type, public key, signature bytes); 0 = none *)
+  t_sigid : N;         (* identity of the Signature message (sign type, public key, signature bytes); 0 = none *)
+  t_para : N;          (* execer: 0 no "user.p." prefix, 1 prefix without a title (GetParaExecTitleName fails),
+                          k >= 2 identity of the parachain title *)
+  t_gexp : option (list Z)  (* GetTxGroup on this transaction yields a group (GroupCount > 1, the Header decodes):
+                          the Expire values of the decoded transactions; None otherwise (no group, or an error).
+                          Read by the expiry sweep on pool entries *)
 }.
+
+Definition bl_from (t : txf) := N.testbit (t_bl t) 0.
+Definition bl_to (t : txf) := N.testbit (t_bl t) 1.
+Definition bl_diff (t : txf) := N.testbit (t_bl t) 2.
+Definition bl_realto (t : txf) := N.testbit (t_bl t) 3.
+Definition bl_evm (t : txf) := N.testbit (t_bl t) 4.
+Definition bl_evmaddr (t : txf) := N.testbit (t_bl t) 5.
+Definition bl_evmpara (t : txf) := N.testbit (t_bl t) 6.
+
+(** types.checkTxBlockedAccountCore / checkEVMTxBlockedTarget: the first position that hits *)
+Definition blocked_pos (t : txf) : option pos :=
+  if bl_from t then Some PFrom
+  else if bl_to t then Some PTo
+  else if bl_diff t && bl_realto t then Some PRealTo
+  else if bl_evm t then
+    (if bl_evmaddr t then Some PEvmAddr else if bl_evmpara t then Some PEvmPara else None)
+  else None.
+
+(** CheckTxBlockedAccountImmediate fails *)
+Definition t_blocked (t : txf) : bool := match blocked_pos t with Some _ => true | None => false end.
 
 (** shape of the submitted transaction, as Transaction.GetTxGroup sees it *)
 Inductive shape :=
@@ -44,6 +78,13 @@ Record sub := mkSub {
 
 Inductive submission := SNil | STx (s : sub).
 
+Fixpoint list_eq_z (a b : list Z) : bool :=
+  match a, b with
+  | [], [] => true
+  | x :: a', y :: b' => (x =? y) && list_eq_z a' b'
+  | _, _ => false
+  end.
+
 (** Relations between the facts of a wrapper [o] and of the group's first
     transaction [h] that hold by construction of the real objects: Hash()
     covers Nonce and Fee; From() and the sign type are functions of the
@@ -53,10 +94,19 @@ Definition wrap_consistent (o h : txf) : bool :=
   && (negb (N.eqb (t_sigid o) (t_sigid h))
       || (N.eqb (t_sender o) (t_sender h) && Bool.eqb (t_eth o) (t_eth h))).
 
+(** the real recipient is an address: when it is the recipient, it is listed iff the recipient is *)
+Definition tx_consistent (t : txf) : bool := bl_diff t || Bool.eqb (bl_realto t) (bl_to t).
+
 Definition facts_consistent (s : sub) : bool :=
   match s_shape s with
-  | Group (h :: _) _ => wrap_consistent (s_outer s) h
-  | _ => true
+  | Group ms _ =>
+      match ms with h :: _ => wrap_consistent (s_outer s) h | [] => true end
+      && forallb tx_consistent ms
+      && match t_gexp (s_outer s) with     (* the wrapper's Header is the encoded group *)
+         | Some vs => list_eq_z vs (map t_expire ms)
+         | None => false
+         end
+  | _ => tx_consistent (s_outer s) && match t_gexp (s_outer s) with None => true | Some _ => false end
   end.
 
 Record config := mkCfg {
@@ -76,7 +126,8 @@ Record config := mkCfg {
   c_height : Z;            (* header height *)
   c_blocktime : Z;         (* header block time *)
   c_now : Z;               (* types.Now().Unix() *)
-  c_nonces : list (N * Z)  (* current evm nonce per sender as reported by the rpc module; default 0 *)
+  c_nonces : list (N * Z); (* current evm nonce per sender as reported by the rpc module; default 0 *)
+  c_parafork : bool        (* ForkTxGroupPara active at height+1 *)
 }.
 
 (** reply classes *)
@@ -90,6 +141,16 @@ Definition R_EXPIRED : N := 12.    Definition R_SIGN : N := 13.
 Definition R_DUP : N := 14.        Definition R_EXEC : N := 15.
 Definition R_LOWNONCE : N := 16.   Definition R_NONCEPEND : N := 17.
 Definition R_EXIST : N := 18.      Definition R_FULL : N := 19.
+Definition R_PARACOUNT : N := 20.  Definition R_PARAMIX : N := 21.
+Definition R_BL_TO : N := 22.      Definition R_BL_REALTO : N := 23.
+Definition R_BL_EVMADDR : N := 24. Definition R_BL_EVMPARA : N := 25.
+
+(** the reply class of ErrBlockedAccount by position (the error text names it) *)
+Definition r_blocked (p : pos) : N :=
+  match p with
+  | PFrom => R_BLOCKED | PTo => R_BL_TO | PRealTo => R_BL_REALTO
+  | PEvmAddr => R_BL_EVMADDR | PEvmPara => R_BL_EVMPARA
+  end.
 
 Definition pool := list txf.   (* pool entries in arrival order *)
 
@@ -134,13 +195,32 @@ Fixpoint first_err {A} (f : A -> N) (l : list A) : N :=
   | x :: tl => if N.eqb (f x) R_OK then first_err f tl else f x
   end.
 
-(** Transactions.CheckWithFork (no parachain execers inside main-chain groups:
-    the para-title rules are not modelled) *)
+(** the parachain titles named by the members' execers (the keys of the map [para] of CheckWithFork) *)
+Definition titles (ms : list txf) : list N := filter (fun k => (2 <=? k)%N) (map t_para ms).
+Definition multi_title (ms : list txf) : bool :=
+  match titles ms with
+  | [] => false
+  | x :: tl => existsb (fun y => negb (N.eqb x y)) tl
+  end.
+Definition has_title (ms : list txf) : bool := match titles ms with [] => false | _ => true end.
+(** some execer is not a parachain execer (no "user.p." prefix) *)
+Definition has_main (ms : list txf) : bool := existsb (fun t => N.eqb (t_para t) 0) ms.
+
+(** the parachain rules of Transactions.CheckWithFork (ForkTxGroupPara) *)
+Definition check_para (c : config) (ms : list txf) : N :=
+  if c_parafork c then
+    if multi_title ms then R_PARACOUNT
+    else if has_title ms && has_main ms then R_PARAMIX
+    else R_OK
+  else R_OK.
+
+(** Transactions.CheckWithFork *)
 Definition check_group (c : config) (ms : list txf) (struct_ok : bool) : N :=
   if (Z.of_nat (length ms) <? 2) then R_MALFORMED
   else
     let e := first_err (fun t => check_one c t 0) ms in
     if negb (N.eqb e R_OK) then e
+    else if negb (N.eqb (check_para c ms) R_OK) then check_para c ms
     else if existsb (fun t => negb (t_fee t =? 0)) (tl ms) then R_GRPFEE
     else match total_fee ms (c_minfee c) with
          | None => R_TOOBIG
@@ -184,9 +264,8 @@ Definition check_level (c : config) (p : pool) (s : sub) : N :=
 Definition count_sender (p : pool) (a : N) : Z :=
   Z.of_nat (length (filter (fun e => N.eqb (t_sender e) a) p)).
 
-(** Transaction.isExpire at the next block *)
-Definition is_expire (c : config) (t : txf) : bool :=
-  let v := t_expire t in
+(** Transaction.isExpire at the next block, on the Expire value *)
+Definition is_expire_v (c : config) (v : Z) : bool :=
   let h := c_height c + 1 in
   if v =? 0 then false
   else if v <=? ExpireBound then v <=? h
@@ -194,6 +273,16 @@ Definition is_expire (c : config) (t : txf) : bool :=
     let th := v - TxHeightFlag in
     negb ((th - LowAllowPackHeight <=? h) && (h <=? th + HighAllowPackHeight))
   else v <=? c_blocktime c.
+
+Definition is_expire (c : config) (t : txf) : bool := is_expire_v c (t_expire t).
+
+(** Transaction.IsExpire on a pool entry (the submitted transaction itself; a group wrapper's
+    Header is the encoded group): txCache.removeExpiredTx without the pool-age rule *)
+Definition sweep_expired (c : config) (e : txf) : bool :=
+  match t_gexp e with
+  | None => is_expire c e
+  | Some vs => existsb (is_expire_v c) vs
+  end.
 
 (** Mempool.checkExpireValid, negated.  [grp]: the transaction has GroupCount > 1,
     so that Transaction.IsExpire first decodes its Header as a group. *)
@@ -204,10 +293,13 @@ Definition expired_chk (c : config) (grp : bool) (t : txf) : bool :=
 (** Mempool.checkTx *)
 Definition check_member (c : config) (p : pool) (grp : bool) (t : txf) : N :=
   if negb (t_to_valid t) then R_ADDR
-  else if t_blocked t then R_BLOCKED
-  else if c_persender c <=? count_sender p (t_sender t) then R_MANYTX
+  else match blocked_pos t with
+  | Some p => r_blocked p
+  | None =>
+  if c_persender c <=? count_sender p (t_sender t) then R_MANYTX
   else if expired_chk c grp t then R_EXPIRED
-  else R_OK.
+  else R_OK
+  end.
 
 (** mempool isGroupHead: the wrapper is the group's first transaction, same hash and same signature *)
 Definition is_group_head (o h : txf) : bool :=
